@@ -9,7 +9,7 @@ Theorem c01_failed_write_confined : forall st ev, step_frame st ev.
 Proof. exact step_frame_holds. Qed.
 Print Assumptions c01_failed_write_confined.
 
-(* [FULL] c01_client_rpc_in_own_range - rule V_ISSUE which the real client is checked against on every run admits a data carrying Write or Create only if it carries the id of the client's current write and names exactly the part of that write's range that lies in the named tract of the write's blob *)
+(* [FULL] c01_client_rpc_in_own_range - rule V_ISSUE which the real client is checked against on every run lets a data carrying Write or Create pass only if it carries the id of the client's current write and names exactly the part of that write's range that lies in the named tract of the write's blob *)
 Theorem c01_client_rpc_in_own_range :
   forall st rp, issue_allowed st rp = true ->
     (k_kind rp = K_Write \/ k_kind rp = K_Create) -> k_len rp <> 0 ->
